@@ -152,7 +152,7 @@ def _case_1d(case, spl):
         if basis.periodic:
             ev["wrap_checks"] += 1
             cls.add("%s/wrap" % name)
-            if not np.array_equal(c[nb:nb + p].view(np.uint8), c[:p].view(np.uint8)):
+            if not np.all(np.abs(c[nb:nb + p] - c[:p]) <= 8 * rm.EPS * (float(np.abs(c).max()) + 1e-300)):
                 return result(VIOL, cls=sorted(cls), events=ev, key="C08:periodic-wrap", what="%s: wrapped coefficients %r differ from leading ones %r"
                               % (name, c[nb:nb + p], c[:p]), witness=dict(wit0, u=u.tolist()))
     # polynomial reproduction on clamped spaces
@@ -270,11 +270,11 @@ def _case_2d(case, spl):
                               % (name, dname, which, float(np.abs(g - U).max()), tol), witness=wit)
         if b1.periodic:
             ev["wrap_checks"] += 1
-            if not np.array_equal(Cf[n1:n1 + p1, :].view(np.uint8), Cf[:p1, :].view(np.uint8)):
+            if not np.all(np.abs(Cf[n1:n1 + p1, :] - Cf[:p1, :]) <= 8 * rm.EPS * (float(np.abs(Cf).max()) + 1e-300)):
                 return result(VIOL, cls=sorted(cls), events=ev, key="C08:periodic-wrap-2d", what="%s: wrapped coefficients along x1 differ" % name, witness=wit)
         if b2.periodic:
             ev["wrap_checks"] += 1
-            if not np.array_equal(np.ascontiguousarray(Cf[:, n2:n2 + p2]).view(np.uint8), np.ascontiguousarray(Cf[:, :p2]).view(np.uint8)):
+            if not np.all(np.abs(Cf[:, n2:n2 + p2] - Cf[:, :p2]) <= 8 * rm.EPS * (float(np.abs(Cf).max()) + 1e-300)):
                 return result(VIOL, cls=sorted(cls), events=ev, key="C08:periodic-wrap-2d", what="%s: wrapped coefficients along x2 differ" % name, witness=wit)
         if dname == "separable-poly":
             y1 = np.concatenate([br1, rs.uniform(*b1.domain, 5)])
